@@ -2,8 +2,11 @@
 
 from __future__ import annotations
 
-from .family import ModelCfg, run_family
-from .scopes import consts, family
+import dataclasses
+
+from . import tgroups
+from .family import ModelCfg, run_family, run_parts
+from .scopes import CLAUSES, consts, family
 
 OPS = '{"open", "close", "yield", "wait", "sleep", "cancel", "shield"}'
 OPSR = '{"open", "yield", "cancel", "close"}'
@@ -36,5 +39,23 @@ FAMILY = family("C03", [
 ])
 
 
+# the same clauses where the cancelled scope spans several tasks (a task group): the group's scope is cancelled
+# (by the host itself, or by a child that sits in a shielded clean-up) while a child's handle scope holds no
+# reachable task; the host - a direct member - swallows the first cancellation and waits again (cleanup kind 2)
+# and must be interrupted again: the re-delivery must be kept alive by ANY member, not by the last scope visited
+TG_OPS = '{"tgopen", "spawn", "open", "cancel", "wait", "yield"}'
+TGPART = dataclasses.replace(
+    tgroups.family("C01", [
+        ModelCfg("c03-tg-n2o4e0-rewait", tgroups.consts(2, 4, 0, '{"tgopen", "spawn", "open", "cancel", "wait"}',
+                                                        shields="{0, 1}", cleanups="{0, 2}", env="{}"),
+                 emit=True, check=False, max_scenarios=2500),
+        ModelCfg("c03-tg-n2o5e0-self", tgroups.consts(2, 5, 0, TG_OPS, shields="{0, 1}", env="{}"),
+                 tiers=("quick",), check=False, simulate=1500),
+        ModelCfg("c03-tg-n3o4e1", tgroups.consts(3, 4, 1, TG_OPS, shields="{0, 1}", cleanups="{0, 2}"),
+                 tiers=("thorough",), check=False, simulate=8000, sim_depth=700),
+    ]),
+    prop="C03", clauses=CLAUSES["C03"], directed="C03.json")
+
+
 def main(tier: str, seed: int) -> int:
-    return run_family(FAMILY, tier, seed)
+    return run_parts("C03", [FAMILY, TGPART], tier, seed)
